@@ -17,6 +17,7 @@
 package json
 
 import (
+	"math"
 	"runtime"
 	"unsafe"
 
@@ -76,6 +77,10 @@ func EncodeInt64(buf []byte, val int64) []byte {
 }
 
 func EncodeFloat64(buf []byte, val float64) []byte {
+	if val == 0 && math.Signbit(val) {
+		// NOTICE: "-0" is read back as the integer 0, keep the sign by writing a float literal
+		return append(buf, "-0.0"...)
+	}
 	f64toa(&buf, val)
 	return buf
 }
